@@ -11,20 +11,20 @@ TRUSTED = ("Trusted base: clang 14 parser/CFG builder, the compile database deri
 
 CLAIMS = {
     "C15": {
-        "technique": "static analysis: path-provenance dataflow (taint-to-sink with sanitiser edges) over clang CFGs, inter-procedural parameter obligations, must-pass-through on check_valid_path",
+        "technique": "static analysis: path-provenance dataflow (taint-to-sink with sanitiser edges) over clang CFGs, inter-procedural parameter obligations, must-pass-through on check_valid_path, literal analysis of path text spliced in by the driver",
         "text": "Every file-system sink in all driver units (libc path arguments) is decided: its path is derived on every CFG path from a NULL-tested "
                 "check_valid_path result with the right write flag, a legal_path guard, or driver-internal text; helper parameters are discharged at every call site. "
                 "check_valid_path itself is shown to approve only after the master apply and legal_path. This is the mediation/confinement mechanism for all sites at once; "
-                "the string semantics of legal_path/inc_lexically_normal are not decided.",
+                "the string semantics of legal_path/inc_lexically_normal are not decided. A driver literal containing '..' that is copied into a path buffer makes the buffer unvalidated (symlink texts included).",
         "design_ref": "DESIGN.md §5 C15",
     },
 }
 
 CLAIMS["C20"] = {
-    "technique": "static analysis: who-may-write enumeration over object_t.uid/.euid in all units, guard dominance (edge atoms), master-approval gate reachability, who-may-call on get_empty_object, freshness of the euid gate (no LPC-running call between the last euid test and the creation, master-only hooks reported undecided)",
+    "technique": "static analysis: who-may-write enumeration over object_t.uid/.euid in all units, guard dominance (edge atoms), master-approval gate reachability, who-may-call on get_empty_object, freshness of the euid gate (no LPC-running call between the last euid test and the creation, master-only hooks reported undecided), who-may-write on the name of shared uid records with a first-load guard on the two renaming setters",
     "text": "Every store to uid/euid anywhere in the driver (plus bulk writes over an object_t) is enumerated and each must be an allow-listed site meeting its dominating "
             "condition (seteuid only under MASTER_APPROVED(valid_seteuid) or to 0 on the caller; export_uid only from a non-zero euid onto a zero-euid target; creation-time uid only after the creator_file apply). "
-            "Object creation (get_empty_object/compile_file/load_binary) is shown unreachable without crossing the euid gate on every CFG path. Universal over sites and paths; the data-dependent backbone branch is not decided. The euid test is repeated after any call that can run LPC code before the object is created (clone_object() tested only before loading the blueprint: found by audit, fixed).",
+            "Object creation (get_empty_object/compile_file/load_binary) is shown unreachable without crossing the euid gate on every CFG path. Universal over sites and paths; the data-dependent backbone branch is not decided. The euid test is repeated after any call that can run LPC code before the object is created (clone_object() tested only before loading the blueprint: found by audit, fixed). A uid record that objects point at is never renamed after the first load of the master object.",
     "design_ref": "DESIGN.md §5 C20",
 }
 
@@ -53,19 +53,19 @@ CLAIMS["C10"] = {
 }
 
 CLAIMS["C11"] = {
-    "technique": "static analysis: dominance / avoid-set reachability in error_handler, call_heart_beat and destruct_object, who-may-write on current_heart_beat, bounded-index idioms on heart_beats[]",
+    "technique": "static analysis: dominance / avoid-set reachability in error_handler, call_heart_beat and destruct_object, who-may-write on current_heart_beat, bounded-index idioms on heart_beats[], who-may-write on the O_HEART_BEAT bit with path proximity to the table update",
     "text": "Decides fault locality and list hygiene structurally: on the uncaught-error path error_handler switches off exactly current_heart_beat and clears it before jumping, nothing else writes that variable, the only exits that skip the switch-off are the catch path and the in_error exit, "
             "call_heart_beat publishes the object before calling it and clears it before reset/call_out run; destruct_object removes the heart beat before marking the object destructed; "
             "every heart_beats[] subscript except the round-robin cursor is bounded by the list length and the growth site grows. "
-            "'Exactly once every n ticks' under enable/disable histories (index compensation) is not decided; the cursor subscript is reported as undecided.",
+            "'Exactly once every n ticks' under enable/disable histories (index compensation) is not decided; the cursor subscript is reported as undecided. The O_HEART_BEAT bit is written only inside set_heart_beat() on the path that changed the table.",
     "design_ref": "DESIGN.md §5 C11",
 }
 
 CLAIMS["C13"] = {
-    "technique": "static analysis: field-cursor bound inference (max over guarded increments and constant stores vs declared array extent), per-iteration longest-path store count in copy_chars vs read-budget divisors, append-destination rule, guard provenance of the command-available flag and of any bulk copy that bypasses the telnet state machine, must-leave analysis of the transient telnet states, store-on-every-path of the data state's default branch, initialisation dominance for fixed-offset reads of the sub-negotiation buffer, must-pass-through of the pending-command test before the input discard",
+    "technique": "static analysis: field-cursor bound inference (max over guarded increments and constant stores vs declared array extent), per-iteration longest-path store count in copy_chars vs read-budget divisors, append-destination rule, guard provenance of the command-available flag and of any bulk copy that bypasses the telnet state machine, must-leave analysis of the transient telnet states, store-on-every-path of the data state's default branch, initialisation dominance for fixed-offset reads of the sub-negotiation buffer, must-pass-through of the pending-command test before the input discard, forward dataflow with edge refinement on the ordering of the two input-buffer cursors",
     "text": "Decides the memory clauses of input framing for every byte stream at once: cursor fields indexing fixed arrays of the connection record cannot exceed the last valid index at any use; "
             "copy_chars' worst-case expansion per input byte (longest acyclic iteration path) is covered by every telnet read budget and the scratch buffers match the text buffer; new input is appended at text_end. "
-            "Two structural necessary conditions of split-independence are decided: CMD_IN_BUF is raised only on the result of the shared buffer scan cmd_in_buf(), and input bytes bypass the per-byte state machine only under a test of the complete state word. Independence of delivered lines from packet boundaries in general and backspace editing are behavioural and not decided; text_end arithmetic is reported as undecided. Also decided: each after-IAC state assigns ip->state on every path through its case (so a two-byte command never swallows the next data byte), the data state's default branch stores a byte on every path, fixed-offset reads of sb_buf are dominated by the clear of its unused tail, and the over-long-line discard is reached only through cmd_in_buf() unless the bytes were already taken off the socket.",
+            "Two structural necessary conditions of split-independence are decided: CMD_IN_BUF is raised only on the result of the shared buffer scan cmd_in_buf(), and input bytes bypass the per-byte state machine only under a test of the complete state word. Independence of delivered lines from packet boundaries in general and backspace editing are behavioural and not decided; text_end arithmetic is reported as undecided. Also decided: each after-IAC state assigns ip->state on every path through its case (so a two-byte command never swallows the next data byte), the data state's default branch stores a byte on every path, fixed-offset reads of sb_buf are dominated by the clear of its unused tail, and the over-long-line discard is reached only through cmd_in_buf() unless the bytes were already taken off the socket. text_end is lowered to a constant only where text_start is known to be 0.",
     "design_ref": "DESIGN.md §5 C13",
 }
 
@@ -73,15 +73,15 @@ CLAIMS["C14"] = {
     "technique": "static analysis: interprocedural slack dataflow (lower bound on free ring slots; summaries of room-testing helpers per sign of their result with constant arguments bound, partition on conditional arguments, raw-put helpers charged at their call sites) at every store into message_buf, structural checks of the modular cursor arithmetic in flush_message, who-may-write, sibling agreement, boundary analysis of snprintf-family truncation tests",
     "text": "Decides the ring-buffer arithmetic on all paths: each store into the output ring happens at the producer with at least one free slot (including the CR LF pair and the re-test after a flush) and is followed by the modular advance and the length increment; "
             "flush_message sends only the contiguous unsent chunk, advances the consumer modulo the size by the bytes actually sent and lowers the length by the same amount, and consumes nothing when send fails; only the ring API writes the three cursor fields. "
-            "Text formatted into a fixed buffer on the output path is queued only when the truncation test puts a result of exactly the buffer size on the truncated side. In-order exactly-once delivery under arbitrary partial-write patterns is behavioural and not decided.",
+            "A chunk length taken from a quantity that is not about the ring (the pending Synch count) only ever shortens the contiguous chunk. Text formatted into a fixed buffer on the output path is queued only when the truncation test puts a result of exactly the buffer size on the truncated side. In-order exactly-once delivery under arbitrary partial-write patterns is behavioural and not decided.",
     "design_ref": "DESIGN.md §5 C14",
 }
 
 CLAIMS["C12"] = {
-    "technique": "static analysis: guard dominance and avoid-set reachability in backend() and get_user_command(), who-may-write/read on the HAS_CMD_TURN bit over all units, must-pass-through of the cursor advance between the pick and the return of get_user_command",
+    "technique": "static analysis: guard dominance and avoid-set reachability in backend() and get_user_command(), who-may-write/read on the HAS_CMD_TURN bit over all units, must-pass-through of the cursor advance between the pick and the return of get_user_command, interprocedural provenance (constant / masked) of every value stored into the flag word that holds the turn bit",
     "text": "Decides the turn mechanism structurally: the grant loop covers every slot below max_users and precedes the command loop on every path of a backend iteration; "
             "the turn is consumed and a user selected only under (complete command) and (turn held), a user without a turn keeps command and turn, and no code but the grant loop and get_user_command touches the bit "
-            "(so command() issued from LPC is never limited). The round-robin cursor is advanced inside get_user_command on every path that returns a command, i.e. before the command can leave by longjmp. Fairness over schedules and per-user ordering are not decided.",
+            "(so command() issued from LPC is never limited). The round-robin cursor is advanced inside get_user_command on every path that returns a command, i.e. before the command can leave by longjmp. Fairness over schedules and per-user ordering are not decided. Every value stored into iflags is a constant or is cut down by a constant mask without the turn and command bits, at the store or at every call site.",
     "design_ref": "DESIGN.md §5 C12",
 }
 
@@ -102,25 +102,25 @@ CLAIMS["C04"] = {
 }
 
 CLAIMS["C07"] = {
-    "technique": "static analysis: guard dominance of function_visible over both dispatch sites of apply_low, provenance of the flags operand, constant-mask check, hit/miss sibling agreement on the apply cache (negative entries only under lookup==NULL, field-set agreement), who-may-write, forward dataflow from every store to the global call_origin to its consuming apply_low, context-sensitive provenance of every function_flags read that reaches a FUNCTION_FLAGS store in the compiler's inherit handling",
+    "technique": "static analysis: guard dominance of function_visible over both dispatch sites of apply_low, provenance of the flags operand, constant-mask check, hit/miss sibling agreement on the apply cache (negative entries only under lookup==NULL, field-set agreement), who-may-write, forward dataflow from every store to the global call_origin to its consuming apply_low, context-sensitive provenance of every function_flags read that reaches a FUNCTION_FLAGS store in the compiler's inherit handling, path completeness of the per-compilation identifier clean-up",
     "text": "Decides the visibility and cache mechanism structurally: no path of apply_low reaches the interpreter without function_visible(origin, flags of the object's own program) being true, call_other is refused for static/private/protected and nothing else is refused; "
             "the cache's hit test compares id, program and name, a negative entry is stored only when the lookup found nothing (so an earlier refused call cannot change a later verdict), and the hit path reads only fields the miss path writes. "
-            "The origin handed over through the global call_origin is consumed by the next apply_low with no LPC-running call and no function exit in between (otherwise a load or a skipped element changes how the next call is classified). Entering an inherited program adds the inherit entry's offsets (pairs), alias slots get the aliased function's flags, and the flags of an inherited slot are read from the program named in the inherit statement at its own slot (not from the defining program, which lacks the modifiers of intermediate `static inherit` levels). Most-derived resolution order (find_function) is not decided.",
+            "The origin handed over through the global call_origin is consumed by the next apply_low with no LPC-running call and no function exit in between (otherwise a load or a skipped element changes how the next call is classified). Entering an inherited program adds the inherit entry's offsets (pairs), alias slots get the aliased function's flags, and the flags of an inherited slot are read from the program named in the inherit statement at its own slot (not from the defining program, which lacks the modifiers of intermediate `static inherit` levels). Most-derived resolution order (find_function) is not decided. The binding of a permanent identifier to a function of the program being compiled is reset at the end of every compilation on every path, so a name resolves the same way whatever was compiled before.",
     "design_ref": "DESIGN.md §5 C07",
 }
 
 CLAIMS["C08"] = {
-    "technique": "static analysis: per-opcode region analysis of the interpreter's fetch cases (destructed-object scrub), must-pass-through of every unlink step on all paths of destruct_object, precondition dominance in move_object, link-store-after-hook reachability, publish-before-destructible ordering in load_object/clone_object, stale-pointer typestate over object pointers for targets of apply()/apply_low() and for next_all/next_inv link reads across LPC callbacks (saved-successor idiom checked by a forward search to the first use)",
+    "technique": "static analysis: per-opcode region analysis of the interpreter's fetch cases (destructed-object scrub), must-pass-through of every unlink step on all paths of destruct_object, precondition dominance in move_object, link-store-after-hook reachability, publish-before-destructible ordering in load_object/clone_object, stale-pointer typestate over object pointers for targets of apply()/apply_low() and for next_all/next_inv link reads across LPC callbacks (saved-successor idiom checked by a forward search to the first use), round-cursor arithmetic of the heart-beat table on removal (shared with C11)",
     "text": "Decides the destruction/visibility mechanism on all paths: each interpreter case that copies a stored value to the stack substitutes 0 for destructed objects (other copying cases are enumerated and reviewed); "
             "destruct_object cannot set O_DESTRUCTED without having passed the stack scrub, inventory unlink, name-hash and object-list removal, living-name, sentence, input_to, heart-beat steps and emptied its inventory, and disconnects afterwards; "
-            "move_object relinks only after the containment-cycle walk and the destination-alive test. no inventory link is written after a re-entrant hook (destruct_object's unlink is the reviewed exception, constrained by the re-read rule); a new object is entered into the name table before anything that can destruct it runs. The forest invariant over operation histories is not decided. A local object pointer is handed to apply()/apply_low() only after a liveness test since the last LPC-running call (safe_apply is shown to refuse destructed targets itself); loops over obj_list and inventories do not follow a link out of an object that a callback may have destructed (clean_up() in a self-destructed object and the shout() walk were found, replayed and fixed). Walks that continue after a callback merely moved the object are reported undecided.",
+            "move_object relinks only after the containment-cycle walk and the destination-alive test. no inventory link is written after a re-entrant hook (destruct_object's unlink is the reviewed exception, constrained by the re-read rule); a new object is entered into the name table before anything that can destruct it runs. The forest invariant over operation histories is not decided. A local object pointer is handed to apply()/apply_low() only after a liveness test since the last LPC-running call (safe_apply is shown to refuse destructed targets itself); loops over obj_list and inventories do not follow a link out of an object that a callback may have destructed (clean_up() in a self-destructed object and the shout() walk were found, replayed and fixed). Walks that continue after a callback merely moved the object are reported undecided. A removal from the heart-beat table during a running round lowers the round length for every entry inside the round, so the round never walks onto the stale copy of a destructed object's entry.",
     "design_ref": "DESIGN.md §5 C08",
 }
 
 CLAIMS["C16"] = {
-    "technique": "static analysis: sink/argument analysis and dominance in save_object (atomic replace protocol), sibling agreement between svalue_save_size and save_svalue (switch case sets, constant and per-iteration store counts vs accounted sizes), store-after-parse ordering in safe_restore_svalue, dominance of the inherit recursion over every use of num_variables_defined in the variable-layout walkers, must-pass-through of a NUL test in every delimiter-scanning loop of the string readers, type-width check of decimal accumulators and digit loops, call-cycle (SCC) analysis with counter-guard dominance for the recursion over nesting, may-raise effect analysis over the region where the temporary stream is open, writer/reader escape-table agreement, kill/use path analysis of the byte fetched behind a backslash, printf-format analysis of float conversions",
+    "technique": "static analysis: sink/argument analysis and dominance in save_object (atomic replace protocol), sibling agreement between svalue_save_size and save_svalue (switch case sets, constant and per-iteration store counts vs accounted sizes), store-after-parse ordering in safe_restore_svalue, dominance of the inherit recursion over every use of num_variables_defined in the variable-layout walkers, must-pass-through of a NUL test in every delimiter-scanning loop of the string readers, type-width check of decimal accumulators and digit loops, call-cycle (SCC) analysis with counter-guard dominance for the recursion over nesting, may-raise effect analysis over the region where the temporary stream is open, writer/reader escape-table agreement, kill/use path analysis of the byte fetched behind a backslash, out-parameter definite assignment on success returns, sibling agreement of the seven growMap() callers on re-bucketing, printf-format analysis of float conversions",
     "text": "Decides the structural clauses: a save can only replace the final file by rename() of a fully written, successfully closed temporary derived from the approved path, failures remove the temporary, the stream is closed on every exit and nothing can leave by error() while it is open (except what a dry run already executed); "
-            "every recursion cycle over the nesting of a value is bounded by a counter test or confined behind the bounded size pass, and the shared nesting counter is cleared when a compound restore starts; string readers test for the end of the text in every scanning loop; integers are accumulated and printed at 64 bits with an unsigned magnitude; every character the readers interpret is escaped by the writer, the byte behind a backslash is stored without being interpreted again, and floats are printed with a format that keeps them floats, identically in both passes; "
+            "every recursion cycle over the nesting of a value is bounded by a counter test or confined behind the bounded size pass, and the shared nesting counter is cleared when a compound restore starts; string readers test for the end of the text in every scanning loop; integers are accumulated and printed at 64 bits with an unsigned magnitude; every character the readers interpret is escaped by the writer, the byte behind a backslash is stored without being interpreted again, a parser that reports success has written its output value, a pair inserted while the hash table doubles is linked into the bucket of the new table, and floats are printed with a format that keeps them floats, identically in both passes; "
             "the size pass and the write pass of the serializer handle the same tags and never write more constant/delimiter bytes than were accounted, and callers allocate exactly that size; "
             "the no-clear restore stores into the variable only after a successful parse; every walker of the variable layout (save, restore, lookup) accounts for a program's inherited subtree before its own variables. Round-trip equality of values and robustness of the restore parser on arbitrary text are behavioural and not decided.",
     "design_ref": "DESIGN.md §5 C16",
@@ -130,15 +130,15 @@ CLAIMS["C19"] = {
     "technique": "static analysis: lockset dataflow (must-hold) over the message queue, thread-root closures from the call graph with shared-variable atomicity check, who-may-write on the eventfd counter, cross-thread write sites relative to thread creation, record-size and must-store path analysis of the notification pipe's reader",
     "text": "Decides race-freedom structurally where it can: every access to a mutable field or slot of the message queue is under the queue mutex on every path, no path returns with it held, the blocking writer releases it around its wait; "
             "variables written in a thread root's closure (timer thread, worker thread) and read by the backend must be atomic or locked (three are not: recorded findings); an eventfd counter may only be written with the constant 1 "
-            "(the completion post encodes key/data in it: recorded finding); a variable a thread root writes is stored by other threads only before pthread_create (one site is not: recorded finding). On the pipe that replaced the eventfd each record is one atomic write, each read takes one record while the caller's array has room, and every record taken is stored. Exactly-once delivery under interleavings, FIFO order and termination of stop are schedule-dependent and not decided.",
+            "(the completion post encodes key/data in it: recorded finding); a variable a thread root writes is stored by other threads only before pthread_create (one site is not: recorded finding). On the pipe that replaced the eventfd each record is one atomic write, each read takes one record while the caller's array has room, every record taken is stored, and a completion is answered with 0 only behind a whole-record write (function summaries through file-local helpers). Exactly-once delivery under interleavings, FIFO order and termination of stop are schedule-dependent and not decided.",
     "design_ref": "DESIGN.md §5 C19",
 }
 
 CLAIMS["C06"] = {
-    "technique": "static analysis: ownership table over struct layouts with must-pass-through of each owning field's release in its deallocator (bypass only via the field's NULL test), classification of every pointer field of owner records, guardedness of every increment of a sub-32-bit reference counter, avoid-set reachability for partial-release call sites (setjmp recovery edges replaced by their raising origins), width check of every reference counter, leak-on-error typestate for values owned only by a C local across an unprotected LPC callback (fresh container results and hand-counted references; higher-order callees resolved at the call site)",
+    "technique": "static analysis: ownership table over struct layouts with must-pass-through of each owning field's release in its deallocator (bypass only via the field's NULL test), classification of every pointer field of owner records, guardedness of every increment of a sub-32-bit reference counter, avoid-set reachability for partial-release call sites (setjmp recovery edges replaced by their raising origins), width check of every reference counter, leak-on-error typestate for values owned only by a C local across an unprotected LPC callback (fresh container results and hand-counted references; higher-order callees resolved at the call site), who-may-share check for arrays that are dismantled in place",
     "text": "Decides two structural necessary conditions of exact counting: every release function (sentence, pending call, function pointer, object, connection, array/class/mapping/object variables) releases each owning field on every path before giving the container up, and every pointer field of those records is classified owning/not-owning; "
             "every increment of a 16-bit reference counter is enumerated - strings saturate, eight counters do not (recorded findings keyed by declaration, so a new narrow counter or a de-saturated one is reported). "
-            "The partial release free_called_call() (which keeps the argument array) is reached only after the array was handed over or found absent, on normal and recovery paths. That counts return to their previous values after arbitrary evaluation sequences is behavioural and not decided. Every reference counter is at least 32 bits wide (a saturating 16-bit counter is reported as a leak, a plain one as a premature free). A container result or hand-taken reference that only a C local owns is anchored, handed over or released before the function runs LPC code outside a catch barrier (callbacks reached only through master or snoop hooks are reported undecided).",
+            "The partial release free_called_call() (which keeps the argument array) is reached only after the array was handed over or found absent, on normal and recovery paths. That counts return to their previous values after arbitrary evaluation sequences is behavioural and not decided. Every reference counter is at least 32 bits wide (a saturating 16-bit counter is reported as a leak, a plain one as a premature free). A container result or hand-taken reference that only a C local owns is anchored, handed over or released before the function runs LPC code outside a catch barrier (callbacks reached only through master or snoop hooks are reported undecided). An array that is taken apart with free_empty_array() (items moved out, block released) has no second holder anywhere in the driver.",
     "design_ref": "DESIGN.md §5 C06",
 }
 
